@@ -14,7 +14,7 @@ RULE = ('Engine B: for every input of DEV(3,d) u DEV(4,d) (d = 1 quick, 2 thorou
         'geos_too_large, geos_must_include, geos_within_constraints, geo_assignments, treatment_group_size_range, '
         'count_max_designs, listings of treatment_group_generator(1|2) and control_group_generator({0}), '
         'design_within_constraints({0},{1}), exhaustive_search, greedy_search, search_results, plus one ENVIRONMENT action: another '
-        'matched-markets object (other parameters) built on the same data object installs its geo index. The reference is always '
+        'matched-markets object (other parameters) built on the same data object installs its geo index; and after every search / retrieval the CALLER empties the returned list and the group sets of the returned design records (his own containers). The reference is always '
         'a fresh object on a fresh data object. State = recursive '
         'fingerprint of every attribute of the object graph (frames/arrays byte-exact, heap lists in layout order) '
         '+ model (answer of the most recent search). On every transition: the answer (value or exception type) equals '
@@ -30,6 +30,20 @@ ASSUMPTIONS = ['copy.deepcopy of the matched-markets object is faithful (self-ch
 def designs(res):
     return tuple((tuple(sorted(map(str, d.treatment_geos))), tuple(sorted(map(str, d.control_geos))),
                   tuple(repr(float(s)) for s in d.score.score), fp(d.diag.x), fp(d.diag.y)) for d in res)
+
+
+def take(res):
+    """Record the designs of a returned result list, then do with the list what a caller may do with HIS list: empty the
+    group sets of the returned design records and clear the list.  The designs retrieved later must not be affected
+    (they must be 'the same designs'), i.e. the object may not hand out the containers it keeps for itself."""
+    out = designs(res)
+    for d in res:
+        for grp in (d.treatment_geos, d.control_geos):
+            if isinstance(grp, (set, list)):
+                grp.clear()
+    if isinstance(res, list):
+        res.clear()
+    return out
 
 
 def ga(a):
@@ -48,9 +62,9 @@ OPS = {
     'treatment_groups_2': lambda m: tuple(tuple(sorted(t)) for t in m.treatment_group_generator(2)),
     'control_groups_T0': lambda m: tuple(tuple(sorted(c)) for c in m.control_group_generator({0})),
     'design_within_constraints_T0_C1': lambda m: bool(m.design_within_constraints({0}, {1})),
-    'exhaustive_search': lambda m: designs(m.exhaustive_search()),
-    'greedy_search': lambda m: designs(m.greedy_search()),
-    'search_results': lambda m: designs(m.search_results()),
+    'exhaustive_search': lambda m: take(m.exhaustive_search()),
+    'greedy_search': lambda m: take(m.greedy_search()),
+    'search_results': lambda m: take(m.search_results()),
 }
 SEARCHES = ('exhaustive_search', 'greedy_search')
 OPNAMES = list(OPS)
